@@ -506,7 +506,7 @@ func raceFingerprint(stderr string) (string, bool) {
 	}
 	var funcs []string
 	blocks := strings.Split(stderr, "\n\n")
-	fnRe := regexp.MustCompile(`(?m)^\s+(seehuhn\.de/go/sfnt[^\s(]*)\(`)
+	fnRe := regexp.MustCompile(`(?m)^\s+(seehuhn\.de/go/sfnt\S*?)\(\)\s*$`)
 	for _, blk := range blocks {
 		h := strings.TrimSpace(blk)
 		if !(strings.HasPrefix(h, "WARNING: DATA RACE") || strings.HasPrefix(h, "Previous ") ||
@@ -540,7 +540,7 @@ func crashViolation(p *propCfg, ci *crashInfo) violation {
 		return violation{Oracle: "no-termination", Fingerprint: "no-termination@watchdog", Message: "worker killed by the wall-clock watchdog while running this case\n" + tail}
 	}
 	loc := "unknown"
-	fnRe := regexp.MustCompile(`(?m)^(seehuhn\.de/go/sfnt[^\s(]*)\(`)
+	fnRe := regexp.MustCompile(`(?m)^(seehuhn\.de/go/sfnt\S*?)\([^()]*\)\s*$`)
 	for _, m := range fnRe.FindAllStringSubmatch(ci.stderr, -1) {
 		if !strings.Contains(m[1], "/zzverif/") {
 			loc = strings.TrimPrefix(strings.TrimPrefix(m[1], "seehuhn.de/go/sfnt"), "/")
